@@ -140,24 +140,42 @@ theorem frame_cloneRep {s : State} (hI : Inv s) {r : Nat} {R : Rep} (hR : s.reps
   | none => exact frame_allocRep_empty _ rfl s c0
   | some f => exact frame_allocBind _ f s hI c0
 
-theorem frame_exchange {s : State} (hI : Inv s) {d n : Nat} (horph : ∀ w, repOf s w ≠ some n)
-    (c0 : Option Nat) : Frame c0 s (exchangeRep d n s) := by
-  rw [exchangeRep_eq]
+theorem frame_eraseRep {s : State} (q : Nat) (c0 : Option Nat) : Frame c0 s (eraseRep q s) := by
+  refine frame_of_sub ?_ ?_
+  · intro x X' hx
+    rw [reps_eraseRep] at hx
+    split at hx
+    · cases hx
+    · exact .inr ⟨X', hx, fun _ h _ => h, fun h => h⟩
+  · intro c _
+    cases hq : s.reps q with
+    | none =>
+      left; unfold eraseRep weakNotify; simp only [hq, slotg_simp]
+    | some Q =>
+      rw [conns_eraseRep q s Q hq]
+      split
+      · cases hcc : s.conns c with
+        | none => left; rfl
+        | some p => right; rfl
+      · exact .inl rfl
+
+theorem frame_switchRep (s : State) (d n : Nat) (par : Option Nat) (c0 : Option Nat) :
+    Frame c0 s (switchRep d n par s) :=
+  (frame_modRep_same s n (fun N => { N with parent := par }) (fun _ => rfl) (fun _ => rfl) c0).trans
+    (frame_of_eq (reps_modSlot _ _ _) (conns_modSlot _ _ _) c0)
+
+theorem frame_exchange {s : State} (hI : Inv s) {d n : Nat} {N : Rep} (hn : s.reps n = some N)
+    (hnc : N.cbs = []) (horph : Orphan s n) (c0 : Option Nat) : Frame c0 s (exchangeRep d n s) := by
   cases hq : repOf s d with
-  | none => exact frame_of_eq (reps_modSlot _ _ _) (conns_modSlot _ _ _) c0
+  | none =>
+    rw [exchangeRep_eq]; simp only [hq]
+    exact frame_of_eq (reps_modSlot _ _ _) (conns_modSlot _ _ _) c0
   | some q =>
-    simp only []
-    have hI1 := inv_setParent_orphan hI horph (match s.reps q with | some Q => Q.parent | none => none)
-    have hF1 : Frame c0 s (s.modRep n fun N => { N with parent := match s.reps q with
-        | some Q => Q.parent
-        | none => none }) :=
-      frame_modRep_same s n (fun N => { N with parent := match s.reps q with
-        | some Q => Q.parent
-        | none => none }) (fun _ => rfl) (fun _ => rfl) c0
-    obtain ⟨hC, -⟩ := destroyRep_spec (fuel (s.modRep n fun N => { N with parent := match s.reps q with
-        | some Q => Q.parent
-        | none => none })) q _ hI1
-    exact (hF1.trans (frame_of_casc hC c0)).trans (frame_swapVar d q (some n) c0)
+    obtain ⟨Q, hQ⟩ := hI.repAlive d q hq
+    rw [exchangeRep_some hq hQ]
+    obtain ⟨hI2, -, -⟩ := inv_switchRep hI hq hQ hn hnc horph
+    obtain ⟨hC, -⟩ := destroyRep_spec (fuel (switchRep d n Q.parent s)) q _ hI2
+    exact ((frame_switchRep s d n Q.parent c0).trans (frame_of_casc hC c0)).trans (frame_eraseRep q c0)
 
 theorem frame_deleteRepWithCheck {s : State} (hI : Inv s) (v : Nat) (c0 : Option Nat)
     (he : (deleteRepWithCheck v s).err = false) : Frame c0 s (deleteRepWithCheck v s) := by
@@ -306,8 +324,10 @@ theorem frame_apply {s : State} (hw : WF s) (op : Op) (hc : check s op = none)
             simp only []
             obtain ⟨R, hR⟩ := hI.repAlive x r (repOf_eq.mpr ⟨X, hx, hr⟩)
             obtain ⟨N, -, hF⟩ := fresh_cloneRep hw hR
-            exact ((frame_cloneRep hI hR _).trans (frame_exchange hF.inv hF.orph _)).trans
-              (frame_of_eq (reps_modSlot _ _ _) (conns_modSlot _ _ _) _)
+            have hF' := fresh_modSlot_blocked hF d X.blocked
+            exact ((frame_cloneRep hI hR _).trans
+              (frame_of_eq (reps_modSlot _ _ _) (conns_modSlot _ _ _) _)).trans
+              (frame_exchange hF'.inv hF'.self hF'.cbs hF'.orph _)
   | masgS d x =>
     simp only [apply] at he ⊢
     cases hx : s.slots x with
@@ -336,7 +356,7 @@ theorem frame_apply {s : State} (hw : WF s) (op : Op) (hc : check s op = none)
               have hnx : (s.modSlot d fun D => { D with blocked := X.blocked }).nextRep = s.nextRep :=
                 nextRep_modSlot _ _ _
               refine (hF0.trans (frame_cloneRep hw0.inv hR0 _)).trans ?_
-              have := frame_exchange (d := d) hF.inv hF.orph none
+              have := frame_exchange (d := d) hF.inv hF.self hF.cbs hF.orph none
               rw [hnx] at this
               exact this
             · rename_i hpar
@@ -344,21 +364,22 @@ theorem frame_apply {s : State} (hw : WF s) (op : Op) (hc : check s op = none)
                 cases hpp : R.parent with
                 | none => rfl
                 | some p => exact absurd ((hasParent_iff s x).mpr ⟨r, R, p, hrx, hR, hpp⟩) hpar
-              obtain ⟨h1, -, -, -, h5, -, -⟩ := moveOut_pre hw0
+              obtain ⟨h1, -, -, h4, h5, -, -⟩ := moveOut_pre hw0
                 (by rw [repOf_modSlot_blocked]; exact hrx) hR0 hRp
               have hFm : Frame none (s.modSlot d fun D => { D with blocked := X.blocked })
                   (moveOut x r (s.modSlot d fun D => { D with blocked := X.blocked })) :=
-                (frame_weakNotify r _ _).trans ((by apply frame_of_eq <;> rfl))
-              exact (hF0.trans hFm).trans (frame_exchange h1 h5 _)
+                (frame_weakNotify r _ _).trans (by apply frame_of_eq <;> rfl)
+              exact (hF0.trans hFm).trans (frame_exchange h1 h4 rfl h5 _)
   | setS d f =>
     have hspec : specCheck s f = none := by
       simp only [check] at hc
-      cases hx : specCheck s f with
-      | none => rfl
-      | some e => simp [hx] at hc; split at hc <;> simp at hc
+      split at hc
+      · simp at hc
+      · exact hc
     have hF := fresh_modSlot_blocked (fresh_allocBind hw true (funOk_of_spec hI hspec)) d false
     exact ((frame_allocBind true f s hI _).trans
-      (frame_of_eq (reps_modSlot _ _ _) (conns_modSlot _ _ _) _)).trans (frame_exchange hF.inv hF.orph _)
+      (frame_of_eq (reps_modSlot _ _ _) (conns_modSlot _ _ _) _)).trans
+      (frame_exchange hF.inv hF.self hF.cbs hF.orph _)
   | clrS d =>
     simp only [apply] at he ⊢
     split
